@@ -12,8 +12,8 @@
     }
 
     /// C07/C06: SequenceNumberSet decoder total.  For EVERY byte string of length 0..=48 and both byte orders
-    /// try_read_from_bytes returns Ok or Err without panic or overflow; on Ok num_bits <= 256 (the invariant the ACKNACK/GAP
-    /// handlers rely on), exactly 12 + 4*ceil(num_bits/32) bytes were consumed and the rest of the input is untouched.
+    /// try_read_from_bytes returns Ok or Err without panic or overflow; on Ok num_bits <= 256 and base >= 1 (the invariants the
+    /// ACKNACK/GAP handlers rely on: acked = base - 1, irrelevant up to base - 1), exactly 12 + 4*ceil(num_bits/32) bytes were consumed and the rest of the input is untouched.
     /// @props C07 C06
     /// @kind bounded
     /// @tier quick
@@ -30,6 +30,7 @@
         match &r {
             Ok(s) => {
                 assert!(s.num_bits <= 256, "C07: a decoded set never claims more than 256 bits");
+                assert!(s.base >= 1, "C06: a decoded set has a valid base (>= 1), so that base - 1 in the ACKNACK / GAP handlers cannot overflow");
                 let m = (s.num_bits as usize + 31) / 32;
                 assert!(n - d.len() == 12 + 4 * m, "C07: exactly the encoded length is consumed");
             }
@@ -146,7 +147,7 @@
         core::mem::forget(r);
     }
 
-    /// C08: SequenceNumberSet wire round trip.  For EVERY well-formed value (any base with base + num_bits - 1 <= i64::MAX, num_bits 0..=256, any bitmap whose
+    /// C08: SequenceNumberSet wire round trip.  For EVERY well-formed value (any base >= 1 with base + num_bits - 1 <= i64::MAX, num_bits 0..=256, any bitmap whose
     /// words beyond ceil(num_bits/32) are zero - the form `new` and the decoder produce) decoding the bytes written by
     /// write_into_bytes yields an equal value and consumes all bytes; the encoding is 12 + 4*ceil(num_bits/32) bytes long.
     /// @props C08
@@ -158,7 +159,8 @@
         let base: i64 = kani::any();
         let num_bits: u32 = kani::any();
         kani::assume(num_bits <= 256);
-        // every member base + k (k < num_bits) is a sequence number
+        // the base and every member base + k (k < num_bits) are sequence numbers (>= 1, representable)
+        kani::assume(base >= 1);
         kani::assume(num_bits == 0 || base <= i64::MAX - (num_bits as i64 - 1));
         let mut bitmap: [i32; 8] = kani::any();
         let m = ((num_bits + 31) / 32) as usize;
